@@ -169,4 +169,7 @@ def _run(pm: ProgramModel, ctx: Ctx, mb: ModelBuilder, cd: Codec) -> None:
     if ctx.tier == "thorough":
         cd.thorough_pairs(mb, ("AND", "OR", "IMPLIES", "EQUIVALENCE", "REQUIRES", "EXCLUDES"), "OPS")
         cd.thorough_kind_pairs(mb, [D(1, 1, 1), D(0, 1, 1), D(1, 1, 2), D(1, 2, 2), D(0, 1, 2), D(2, 3, 3), D(0, 2, 2), D(1, -1, 2)])
+    from ..codec import stress_trees
+    cd.report("OPS", "stress-shapes", cd.roundtrip(ctc_model(mb, stress_trees(mb))),
+              "constraint shapes that stress normal forms", ("constraint", "constraint-count"))
     cd.finish_unowned()
